@@ -302,7 +302,7 @@ func runHistory(t *testing.T, r *vh.Run, w *world, ck string, c conf, nops int) 
 		}()
 		pnc, pv, pw = vh.Guard(func() {
 			cl := mkClient()
-			defer func() { cl.Destroy() }()
+			defer func() { pcommon.Teardown(cl) }()
 			seenReq := 0
 			markWindow := func(from, to time.Time) int {
 				n := len(w.k.Requests())
@@ -422,7 +422,7 @@ func runHistory(t *testing.T, r *vh.Run, w *world, ck string, c conf, nops int) 
 					// (in real time the burst ends after ~10 requests). Stay clear of that regime: re-create the client first.
 					if lim := sessionLimit(w, c); !lim.IsZero() && now.Add(d).After(lim) {
 						r.Inc("observe_renew_till_regime_avoided_by_recreate")
-						cl.Destroy()
+						pcommon.Teardown(cl)
 						markWindow(now, now)
 						cl = mkClient()
 						loggedIn = false
@@ -446,7 +446,7 @@ func runHistory(t *testing.T, r *vh.Run, w *world, ck string, c conf, nops int) 
 					rec.NReq = markWindow(now, now.Add(d)) // background renewals happen inside this window
 				default:
 					rec.Op = "Destroy+re-create"
-					cl.Destroy()
+					pcommon.Teardown(cl)
 					markWindow(now, now)
 					cl = mkClient()
 					loggedIn = false
